@@ -138,7 +138,13 @@ func (lex *Lexer) readToken() []*token.Token {
 		// silently rewrote the one-symbol form into the two-symbol form --
 		// the formatter changing the program it was asked to tidy.  Found by
 		// FuzzFormatCompact on "(------ )".
-		if c, ok := lex.scanner.Peek(); !ok || unicode.IsSpace(c) || c == ')' || c == ']' {
+		//
+		// A comment start belongs to the same set: nothing can be glued to a
+		// '-' that is followed by ';'.  "(--;c\n)" lexed as NEGATIVE +
+		// NEGATIVE and read as the TWO symbols (- -), while "(-- ;c\n)" and
+		// "(--)" read as the one symbol (--): a comment glued to the dash run
+		// changed the tree.
+		if c, ok := lex.scanner.Peek(); !ok || unicode.IsSpace(c) || c == ')' || c == ']' || c == ';' {
 			return lex.emitText(token.SYMBOL)
 		}
 		return lex.emitText(token.NEGATIVE)
